@@ -33,6 +33,7 @@ inductive Ev
   | noPreVote (srv : Nat)
   | electedAs (srv life : Nat) (voter : Bool) (cfgIdx start : Nat) (startKnown : Bool)
   | majority (t stopped : Nat) (ok : Bool)
+  | majorityStale (t stopped : Nat) (ok : Bool)
   | rejoin (srv t0 leader0 term0 t1 leader1 term1 : Nat)
   | shutdownHung (srv life : Nat)
 deriving Repr
@@ -487,6 +488,8 @@ def nonVoterNeverElected (h : List Ev) : Option String :=
 def majorityElects (h : List Ev) : Option String :=
   h.findSome? (fun e => match e with
     | .majority t stopped false => some s!"no-leader-accepting-writes-with-{stopped}-stopped-at-{t}"
+    -- F20: the same while a running server had not yet learnt the committed configuration
+    | .majorityStale _ stopped false => some s!"no-leader-with-{stopped}-stopped-while-a-running-server-has-not-learnt-the-committed-configuration"
     | _ => none)
 
 /-- C14: a server that was cut off and reconnects on a calm network does not unseat the leader or
